@@ -1252,7 +1252,8 @@ class Mps(MatrixProduct):
                 ms = sol.y[:, -1].reshape(shape)
                 mps[imps] = ms
 
-            if len(cmf_rk_steps) > 0:
+            # the variance of one single value (two-site chain) is a division by zero
+            if len(cmf_rk_steps) > 1:
                 steps_stat = stats.describe(cmf_rk_steps)
                 logger.debug(f"{self.evolve_config.method} CMF steps: {steps_stat}")
 
